@@ -142,6 +142,12 @@ def runHist (ops : List Arg) : Option String := do
     fmtList (st.tracked.map (·.1)) ++ "#" ++
     "[" ++ ",".intercalate (st.tracked.map fun t => fmtDigests t.2) ++ "]")
 
+/-- a history that starts from `init(peaks, count)` with a LARGE leaf count (op `bhist`) -/
+def runHistFrom (a : Acc Dg) (ops : List Arg) : Option String := do
+  let (st, segs) ← runHist.go ops { acc := a, tracked := [] } []
+  pure ("|".intercalate segs ++ "#" ++ toString st.acc.count ++ "#" ++ fmtDigests st.acc.peaks ++ "#" ++
+    fmtList (st.tracked.map (·.1)) ++ "#" ++
+    "[" ++ ",".intercalate (st.tracked.map fun t => fmtDigests t.2) ++ "]")
 
 /-! free hash algebra and the bounded model check (a *test*): all MMR shapes up to `N` leaves with every leaf tracked
 (the update routines treat the handed proofs independently, so this covers every tracked subset and, for the returned
@@ -225,6 +231,12 @@ def mmrp : Handler
       | some s => "ok:" ++ s
       | none => "panic")
   | "free_check", [.nat n, .nat k] => some ("ok:" ++ fmtBool (freeCheck n k))
+  -- `bhist (count;peaks;known) ops`: as `hist`, from `init(peaks, count)`; `known` = materialised leafs (harness oracle only)
+  | "bhist", [.tup [.nat c, peaks, _known], .list ops] => do
+    let ps ← peaks.natListList?
+    pure (match runHistFrom { count := c, peaks := ps } ops with
+      | some s => "ok:" ++ s
+      | none => "panic")
   | _, _ => none
 
 end TF.Drv.MmrMember
